@@ -158,7 +158,8 @@ func (e *encryptPlugin) PreWriteCall(ctx erpc.WriteCtx) *erpc.Status {
 	if err != nil {
 		return erpc.NewStatus(e.statCode, "marshal raw body error", err.Error())
 	}
-	ciphertext := goutil.AESEncrypt(e.cipherkey, bodyBytes)
+	// the padding is appended to a copy-on-append view: a byte body is the caller's own slice
+	ciphertext := goutil.AESEncrypt(e.cipherkey, bodyBytes[:len(bodyBytes):len(bodyBytes)])
 	ctx.Output().SetBody(&Encrypt{
 		Cipherversion: e.version,
 		Ciphertext:    goutil.BytesToString(ciphertext),
